@@ -11,6 +11,7 @@ R3  coverage: every record woken by signal/broadcast has been unlinked from the 
 R4  CV_NON_EMPTY: when the cv spinlock is released with a queue known non-empty the bit is set; the bit is cleared only with the queue known empty.
 R5  wake-ups deferred past the cv spinlock only for pooled (MUCV) records (= C13.R3; this is where the nsync_wait_n wake-up was swallowed before
     the repair 25942d3).
+R6  nsync_wait_n derives the index it returns from the dequeue results (= C11.R5): a signal consumed between the last poll and the dequeue is reported as that object, not as a timeout.
 That every started wait is covered by a wake-up under all interleavings is not decided."""
 from .. import util, mumodel, ir as IR, wakeshape
 from ..bounds import _guards, _norm_cmp
@@ -91,6 +92,9 @@ def run(ctx, rep):
                                               site='%s/timeout-declaration' % fn.name))
     from .C11 import check_waitn_unlock
     check_waitn_unlock(mod, rep, 'C04.R1')
+    from .C11 import check_dequeue_result
+    rep.rule('C04.R6', 'nsync_wait_n reports a consumed wake-up: its result is decided by the dequeue calls, not by an earlier poll')
+    check_dequeue_result(mod, rep, 'C04.R6')
     wakeshape.check_wake_loops(mod, rep, 'C04.R3', only_files=('cv.c',))
     from . import C13
     # R5 reuses the C13 rule on a sub-report
